@@ -48,6 +48,14 @@ Definition chk_sync (c : sync_case) : bool :=
   trace_eqb (filter is_cmp_event (run sync_sched cf (init (sync0 tbl mx)) its)) impl.
 
 (* bool: does the code show the behaviour after the fix of F-C20-1 (probe in the driver)? *)
+Definition dehb_case := (cfg * list (list (nat * Z)) * bool * bool * list (iter_in (option Q * Z) unit) * list event)%type.
+Definition chk_dehb (c : dehb_case) : bool :=
+  let '(cf, tbl, mx, sup, its, impl) := c in
+  trace_eqb (filter is_cmp_event (run dehb_sched cf (init (dehb0 tbl mx sup)) its)) impl.
+
+Definition fs_case := list (fs_op * list (Z * option Z)).
+Definition chk_fs (c : fs_case) : bool := fs_replay [] c.
+
 Definition pbt_case := (cfg * bool * pbt_prm * list (iter_in (Q * Q * Z) Z) * list event)%type.
 Definition chk_pbt (c : pbt_case) : bool :=
   let '(cf, fixed, prm, its, impl) := c in
@@ -217,7 +225,7 @@ def run_case(spec):
             crash = "%s: %s" % (type(e).__name__, str(e)[:200])
     extra = dict(crash=crash, plan=be.plan_out, callbacks=[type(c).__name__ for c in tuner.callbacks],
                  pbt_fixed=PBT_FIXED.get("value", True))
-    if spec["kind"] == "sync":
+    if spec["kind"] in ("sync", "dehb"):
         extra["tbl"] = [[(int(s), int(l)) for s, l in rungs] for rungs in sch.bracket_manager.bracket_rungs]
     return be.log, extra
 
@@ -495,7 +503,7 @@ def model_cases(spec, log, extra):
                     sg.append("(Some %s)" % zl(e[1]))
             p_its.append(iter_term(reps, it["completed"], sg, it["cb"], it["failed"], it["hold"]))
         out["promo"] = "(%s, %s, %s)" % (cf, lst(p_its), impl)
-    elif kind == "sync":
+    if kind in ("sync", "dehb"):
         s_its = []
         for it in its:
             reps = []
@@ -506,7 +514,11 @@ def model_cases(spec, log, extra):
             n_sg = sum(1 for e in it["body"] if e[0] in ("start", "resume", "resume_rejected"))
             s_its.append(iter_term(reps, it["completed"], ["tt"] * n_sg, [], it["failed"], it["hold"]))
         tbl = lst([lst(["(%s, %s)" % (natlit(s), zl(l)) for s, l in rungs]) for rungs in extra["tbl"]])
-        out["sync"] = "(%s, %s, %s, %s, %s)" % (cf, tbl, blit(spec["mode"] == "max"), lst(s_its), impl)
+        if kind == "sync":
+            out["sync"] = "(%s, %s, %s, %s, %s)" % (cf, tbl, blit(spec["mode"] == "max"), lst(s_its), impl)
+        else:
+            out["dehb"] = "(%s, %s, %s, %s, %s, %s)" % (cf, tbl, blit(spec["mode"] == "max"),
+                                                       blit(spec.get("support_pause_resume", True)), lst(s_its), impl)
     elif kind == "pbt":
         sign = 1.0 if spec["mode"] == "max" else -1.0
         b_its = []
@@ -537,6 +549,33 @@ def model_cases(spec, log, extra):
 
 
 # ---------------------------------------------------------------------------------
+def fs_case_term(events):
+    """events of ckpt_localfs.ObservedLocalBackend -> [(fs_op, observed directory contents after the call)]:
+    the worker's write of the source is made visible by an FsWrite before each copy"""
+    import json
+    table = []
+
+    def cid(snap):
+        key = json.dumps(snap, sort_keys=True)
+        if key not in table:
+            table.append(key)
+        return table.index(key) + 1
+
+    def obs(pairs):
+        return lst(["(%s, %s)" % (zl(t), "None" if sn is None else "(Some %s)" % zl(cid(sn))) for t, sn in pairs])
+
+    ops = []
+    for e in events:
+        if e[0] == "copy":
+            _, src, tgt, before, after, tgt_snap, err = e
+            if before is not None:
+                ops.append("(FsWrite %s %s, %s)" % (zl(src), zl(cid(before)), obs([(src, before)])))
+            ops.append("(FsCopy %s %s, %s)" % (zl(src), zl(tgt), obs([(src, after), (tgt, tgt_snap)])))
+        elif e[0] == "delete":
+            ops.append("(FsDelete %s, [])" % zl(e[1]))
+    return lst(ops)
+
+
 PBT_FIXED = {}
 PROBE_SPEC = dict(kind="pbt", seed=0, curve_seed=0, n_workers=2, delete_checkpoints=True, max_steps=3, polls=2,
                   flavour="plain", mode="min", use_max_resource_attr=False, remove_callback=False, speculative=None,
@@ -595,6 +634,7 @@ def run(ctx, replay=None):
     # ---- stream on the real LocalBackend (checkpoint directories on disk) ---------------------
     if replay is None or replay.get("stream") == "localfs":
         import ckpt_localfs
+        fs_terms, fs_meta = [], []
         for name, events, crash, fviols in ckpt_localfs.run_streams():
             ctx.count(("localfs", name), nontrivial=sum(1 for e in events if e[0] == "copy") >= 2)
             ctx.h("localfs", name + "_copies", sum(1 for e in events if e[0] == "copy"))
@@ -606,13 +646,18 @@ def run(ctx, replay=None):
                     seen.add(tuple(sorted(sig.items())))
                     ctx.violation("property", what + " [real LocalBackend, stream '%s', delete_checkpoints=True]" % name,
                                   case=dict(stream="localfs", part=name), signature=sig)
+            fs_terms.append(fs_case_term(events))
+            fs_meta.append(dict(stream="localfs", part=name))
             if crash and not fviols:
                 ctx.violation("correspondence", "real LocalBackend stream '%s' raised %s" % (name, crash),
                               case=dict(stream="localfs", part=name), failing_input=False,
                               broken="file-system stream (harness/ckpt_localfs.py)")
+        for i in ctx.coq_bad_cases("fs", IMPORTS, PRELUDE, "chk_fs", ["(%s : fs_case)" % t for t in fs_terms]):
+            ctx.violation("correspondence", "directory-map model (fs_step) and the real LocalBackend checkpoint directories differ",
+                          case=fs_meta[i], failing_input=False, broken="correspondence chk_fs (model/Checkpoint.v fs_step)")
         if replay is not None:
             return
-    layers = {"oracle": ([], []), "promo": ([], []), "sync": ([], []), "pbt": ([], [])}
+    layers = {"oracle": ([], []), "promo": ([], []), "sync": ([], []), "dehb": ([], []), "pbt": ([], [])}
     for spec in specs:
         log, extra = run_case(spec)
         case = dict(spec=dict(spec, plan=extra["plan"]))
